@@ -322,7 +322,18 @@ func (s *state) Enqueue(task *Task) (nwait int) {
 	}
 	for _, task := range task.Phase() {
 		switch task.State() {
-		case TaskOk, TaskErr:
+		case TaskOk:
+		case TaskErr:
+			// The task has already failed fatally (e.g. in an earlier
+			// evaluation of a result that is being reused): it is not
+			// complete, so neither its dependents nor the evaluation can
+			// be.
+			if s.err == nil {
+				s.err = errors.E(fmt.Sprintf("error running %s", task.Name), task.Err())
+			}
+			// Count it as outstanding so that dependents are not
+			// considered ready.
+			nwait++
 		case TaskWaiting, TaskRunning:
 			s.schedule(task)
 			nwait++
